@@ -68,7 +68,7 @@ def mk_message(sender, fid, nfrag, typ, tag, to=ME, exact=False, src="ref"):
         return {"from": sender, "id": fid, "type": typ, "msg": b"", "frames": frames, "to": to}
     n = 24 * nfrag if exact else 24 * (nfrag - 1) + 1 + (tag * 7) % 23
     body = bytes(((tag * 31 + i * 5 + sender + (to != ME)) & 0xFF) for i in range(n))
-    if src == "lib" and to == ME:
+    if src == "lib" and to == ME and len(body) <= 144:  # (a node refuses longer messages: ValueError)
         frames = lib_frames(sender, to, fid, typ, body)
         # a sender that emits another number of frames: the delivery pattern addresses what exists
         frames = (frames + [None] * nfrag)[:max(nfrag, len(frames))]
